@@ -111,6 +111,110 @@ def random_exprs(rnd, n, depth):
     return [gen(rnd.choice(['int', 'bool']), depth) for _ in range(n)]
 
 
+def lit_cval(ast):
+    """generator-side value of a literal-only tree (C: / truncates towards zero, % has the dividend's sign); only used to spell comparison
+    constants next to the literal subtree - the oracle of the check stays cparse.evaluate in bit-vectors"""
+    k = ast[0]
+    if k == 'num':
+        return ast[1]
+    if k == 'un':
+        x = lit_cval(ast[2])
+        return -x if ast[1] == '-' else int(x == 0)
+    if k != 'bin' or ast[1] not in ('+', '-', '*', '/', '%'):
+        raise ValueError('not a literal-only arithmetic tree')
+    a, b = lit_cval(ast[2]), lit_cval(ast[3])
+    op = ast[1]
+    if op in ('/', '%'):
+        if b == 0:
+            raise ValueError('division by zero')
+        q = abs(a) // abs(b) * (1 if (a < 0) == (b < 0) else -1)
+        return q if op == '/' else a - q * b
+    return {'+': a + b, '-': a - b, '*': a * b}[op]
+
+
+# literal-only subtrees whose value is negative, reached through unary minus, subtraction of numbers and of character constants, products
+LIT_NEG = ['-7', '(7 - 10)', '(0 - 7)', "('0' - '7')", '(2 - 3 * 3)', '-(3 + 4)', '-1', '(1 - 2)', '-0x7', '(3 - 2 * 7)', "('a' - 'z')", '-(20 - 7)']
+LIT_POS = ['2', '3', '4', '5']
+LIT_NEG_DIVISOR = ['-2', '(1 - 3)', '-4', '(2 - 6)', "('0' - '3')"]
+LIT_POS_DIVIDEND = ['7', '9', "'\\t'", '(3 + 4)']
+LIT_CONTEXTS = ['v0 + {}', '{} * 2 - v1', 'v0 * ({})', '{} == {c}', '{} != {c}', '{} < {c}', '!({})', 's[{} + 4]', '-({}) + {}', 'v0 < {} || f', '({} + 100) >> 1', 'v2 - ({})']
+
+
+def literal_exprs(tier):
+    """(text, ast): literal-only subtrees (no variable, .len, index or $last below them) with negative intermediate values under / and %:
+    C truncates the quotient towards zero and gives the remainder the sign of the dividend, whatever a compiler does with constant
+    subtrees. The subtree alone and inside larger trees (sum, product, comparison, !, index, shift, logical)."""
+    P = cparse.Parser
+    cores = []
+    for op in ('/', '%'):
+        for n in LIT_NEG:
+            for q in LIT_POS:
+                cores.append(f'{n} {op} {q}')
+        for q in LIT_POS_DIVIDEND:
+            for n in LIT_NEG_DIVISOR:
+                cores.append(f'{q} {op} {n}')
+        cores += [f'-7 {op} -2', f'(3 - 10) {op} (5 - 7)', f'-8 {op} 2', f'-(7 {op} 2)', f'7 {op} 2 - 10 {op} 3', f'-20 {op} 3 {op} 2', f'-20 / 3 {op} -2', f'(2 - 20) / 3 * 3 + (2 - 20) % 3 {op} 5']
+    texts = []
+    step = 12 if tier == 'quick' else 1
+    texts += cores[::step]
+    nctx = len(LIT_CONTEXTS)
+    for i, core in enumerate(cores):
+        if tier == 'quick' and i % 19 != 3:
+            continue
+        for j, ctx in enumerate(LIT_CONTEXTS):
+            if (i + j) % nctx != 0:
+                continue
+            try:
+                c = lit_cval(P(core).parse())
+            except (cparse.ParseError, ValueError):
+                continue
+            texts.append(ctx.format(core, core, c=c) if ctx.count('{}') == 2 else ctx.format(core, c=c))
+    out, seen = [], set()
+    for t in texts:
+        if t in seen:
+            continue
+        seen.add(t)
+        try:
+            out.append((t, P(t).parse()))
+        except cparse.ParseError:
+            pass
+    return out
+
+
+# index expressions: checked under the default (range-checked) indexing and under -funsafe-string-indexing with both string element types
+IDX_NEW = ['s[0]', 's[1] * 256 + s[0]', 's[2] > 127', 'u[1] - 128', 's[v0]', 's[v0 & 3] + 1', 'u[v1 % 3]', '-s[1]', 's[0] >> 7', 's[1] / 16', 's[1] & 128',
+           's[0] < s[1]', 's[u[0] & 3]', 's[1] == $last', 'u[2] % 100 - 100', 's[2] | v0 << 8', '(s[0] ^ 255) + 1', 'u[0] >= 128 && u[1] < 128', 's[s.len - 1] != 255', 'v0 + s[1] * s[2]',
+           'u[2] == 200', 'f || u[v0] > 127']
+IDX_CONFIGS = [('unsafeidx', ('-funsafe-string-indexing',)), ('unsafeidx-u8', ('-funsafe-string-indexing', '-fstrings-as-u8')), ('u8', ('-fstrings-as-u8',))]
+STR_SIZES = {'s': 4, 'u': 3}    # declared in program()
+
+
+def has_idx(ast):
+    return ast[0] == 'idx' or any(isinstance(x, tuple) and has_idx(x) for x in ast[1:])
+
+
+def static_oob(ast):
+    """some index is a literal-only tree outside the declared size: with unchecked indexing such a program is outside the claim for every input"""
+    if ast[0] == 'idx':
+        try:
+            v = lit_cval(ast[2])
+            if not 0 <= v < STR_SIZES[ast[1]]:
+                return True
+        except ValueError:
+            pass
+    return any(isinstance(x, tuple) and static_oob(x) for x in ast[1:])
+
+
+def index_exprs():
+    out = []
+    for t in IDX_NEW:
+        try:
+            out.append((t, cparse.Parser(t).parse()))
+        except cparse.ParseError:
+            pass
+    return out
+
+
 def uses_last(ast):
     return ast[0] == 'last' or any(isinstance(x, tuple) and uses_last(x) for x in ast[1:])
 
@@ -124,11 +228,11 @@ def program(types, site, text):
     return head + 'parser { ' + body + ' }\n'
 
 
-def check_site(ast, text, types, site, st, tname):
+def check_site(ast, text, types, site, st, tname, flags=()):
     """returns list of findings"""
     d = st.d
     src = program(types, site, text)
-    comp = nm.compile_src(src)
+    comp = nm.compile_src(src, flags=tuple(flags))
     d['cov']['compilations'] = d['cov'].get('compilations', 0) + 1
     if comp.verdict != 'ok':
         d['cov']['rejected_by_compiler'] = d['cov'].get('rejected_by_compiler', 0) + 1
@@ -153,12 +257,17 @@ def check_site(ast, text, types, site, st, tname):
         b = z3.BitVec('chunk_0', 8)
         if site == 'ifpoint':
             inv = inv + [b == ord('x')]
-        env = cparse.Env({n: v for n, v in data.vals.items()}, {n: (CV(s_.len, L.layout.cnt[n]), s_.arr, L.layout.size[n]) for n, s_ in data.strs.items()}, CV(b, C.U8))
+        env = cparse.Env({n: v for n, v in data.vals.items()}, {n: (CV(s_.len, L.layout.cnt[n]), s_.arr, L.layout.size[n]) for n, s_ in data.strs.items()}, CV(b, C.U8),
+                         unsafe=bool(comp.cfg['UNSAFE_STRING_INDEXING']))
         ub = C.UB()
         try:
             val = cparse.evaluate(ast, env, ub)
         except cparse.ParseError:
             return findings
+        if env.oob:
+            # -funsafe-string-indexing: the program promises in-range indexes (the property's restriction); this is a precondition of the
+            # run, so that the unchecked read does not end the symbolic path and the value read from an in-range position is compared
+            inv = inv + [z3.Not(z3.Or(*env.oob))]
         mem = L.image(sidx, data, None)
         L.add_chunk(mem, 1, symbols=[b])
         sx = {'queries': 0, 'solver_time': 0.0}
@@ -187,7 +296,7 @@ def check_site(ast, text, types, site, st, tname):
                     byte = mdl.eval(b, model_completion=True).as_long()
                     f = {'kind': 'c14-diff', 'what': 'emitted C for the expression accesses memory outside the object it indexes', 'detail': f'{site}: {p.kind}: {str(p.why)[:200]}',
                          'sym': 'byte', 'byte': byte, 'pre': w, 'expr': text, 'site': site, 'types': tname, 'oracle_value': None,
-                         'label': text, 'cname': f'{site}/{tname}', 'flags': [], 'source': src}
+                         'label': text, 'cname': f'{site}/{tname}', 'flags': list(flags), 'source': src}
                     clog, diag = replay.run_c(comp, L.layout, {'pre': w, 'calls': [('feed', [byte])]}, sanitize=True)
                     f['replay'] = {'reproduced': True if clog is not None else None, 'clog': str(clog)[:300], 'sanitizer': (diag or '')[:300],
                                    'note': 'an in-struct read one element past an array is not reported by sanitizers; the symbolic path (sub-object bounds) is the evidence, the gcc build is run for the record'}
@@ -254,7 +363,7 @@ def check_site(ast, text, types, site, st, tname):
                 expect = z3.simplify(mdl.eval(C.convert(val, C.LONG).v, model_completion=True))
                 f = {'kind': 'c14-diff', 'what': 'emitted C evaluates the expression differently from C semantics of its source text', 'detail': f'{site}: {"; ".join(bad)}',
                      'sym': 'byte', 'byte': byte, 'pre': w, 'expr': text, 'site': site, 'types': tname, 'oracle_value': expect.as_long() if z3.is_bv_value(expect) else None,
-                     'label': text, 'cname': f'{site}/{tname}', 'flags': [], 'source': src}
+                     'label': text, 'cname': f'{site}/{tname}', 'flags': list(flags), 'source': src}
                 # replay: forced pre-state through the gcc build; observed r / q / appended byte / hook / code vs the oracle value
                 clog, diag = replay.run_c(comp, L.layout, {'pre': w, 'calls': [('feed', [byte])]})
                 f['replay'] = {'reproduced': None, 'clog': (clog or [])[-3:], 'note': diag[:100] if clog is None else ''}
@@ -288,7 +397,8 @@ def check_site(ast, text, types, site, st, tname):
 
 def work(job):
     t0 = time.time()
-    out = {'label': job['text'], 'cname': job['tname'], 'flags': [], 'status': 'ok', 'findings': [], 'stats': None, 'wall': 0}
+    flags = tuple(job.get('flags', ()))
+    out = {'label': job['text'], 'cname': job['tname'], 'flags': list(flags), 'status': 'ok', 'findings': [], 'stats': None, 'wall': 0}
     try:
         st = stepcmp.StepStats()
         ast = job['ast']
@@ -300,11 +410,11 @@ def work(job):
             sites = ['ifact', 'boolassign'] + ([] if uses_last(ast) else ['ifpoint'])
         elif kind == 'boolc':
             sites = ['ifact'] + ([] if uses_last(ast) else ['ifpoint'])
-        if job['tier'] == 'quick' and len(sites) > 2:
+        if job['tier'] == 'quick' and len(sites) > 2 and not job.get('allsites'):
             rnd = random.Random(zlib.crc32(job["text"].encode()) & 0xffff)
             sites = sites[:1] + [rnd.choice(sites[1:])]
         for site in sites:
-            out['findings'] += check_site(ast, job['text'], job['types'], site, st, job['tname'])
+            out['findings'] += check_site(ast, job['text'], job['types'], site, st, job['tname'], flags)
         st.d['cov']['programs'] = 1
         if len(st.d['samples']) < 2:
             st.d['samples'].append({'expression': job['text'], 'types': job['tname'], 'sites': sites})
@@ -321,7 +431,9 @@ def main(tier, replay_path):
     rnd = random.Random(chk.seed())
     exprs = pair_exprs() + extra_exprs() + random_exprs(rnd, 30 if tier == 'quick' else 400, 3 if tier == 'quick' else 4)
     tsets = TYPESETS[:2] if tier == 'quick' else TYPESETS
-    run.bounds = {'variables': 'all values of the declared width (8/16/32/64 bit), $last 0..255, string bytes/length symbolic', 'expressions': f'{len(exprs)} trees: all operator pairs in both shapes, unary/atom combinations, seeded random trees',
+    run.bounds = {'variables': 'all values of the declared width (8/16/32/64 bit), $last 0..255, string bytes/length symbolic', 'expressions': f'{len(exprs)} trees: all operator pairs in both shapes, unary/atom combinations, seeded random trees; '
+                                 f'{len(literal_exprs(tier))} trees with literal-only subtrees of negative value under / and % (all use sites); {len(index_exprs())} index expressions',
+                  'configurations': 'default; index expressions also with -funsafe-string-indexing, with and without -fstrings-as-u8 (indexes outside the string excluded there)',
                   'type_sets': [t[0] for t in tsets], 'sites': 'assignment, char append, if with actions only (conditional action), if with matches (condition point), bool assignment',
                   'defined_behaviour_only': 'no signed overflow, divisor != 0, shift count in range, non-negative left operand of signed <<; literals < 2^31; reads beyond the current string length excluded',
                   'fallback': 'obligations the solver cannot decide at full width are re-asked with operands restricted to 16 significant bits and listed'}
@@ -332,7 +444,40 @@ def main(tier, replay_path):
         for j, (tname, types) in enumerate(tsets):
             if tier == 'quick' and (i + j) % 2 == 1:
                 continue
-            jobs.append({'ast': ast, 'text': text, 'tname': tname, 'types': types, 'tier': tier, 'src': ''})
+            jobs.append({'ast': ast, 'text': text, 'label': text, 'tname': tname, 'types': types, 'tier': tier, 'src': ''})
+    # literal-only subtrees with negative intermediate values under / and %: spelled as written (character constants, hex), every use site
+    lits = literal_exprs(tier)
+    for i, (text, ast) in enumerate(lits):
+        for j, (tname, types) in enumerate(TYPESETS):
+            if (i + j) % 4 != 0:
+                continue
+            jobs.append({'ast': ast, 'text': text, 'label': text, 'tname': tname, 'types': types, 'tier': tier, 'src': '', 'allsites': True})
+    # index expressions: the new ones in the default configuration; these and every other tree with an index (in the quick tier: of the
+    # hand-written list) under unchecked indexing over char and uint8_t buffers (in-range indexes only) and, thorough, checked indexing over uint8_t
+    idxs = index_exprs()
+    for i, (text, ast) in enumerate(idxs):
+        if tier == 'quick' and i % 2 == 1:
+            continue
+        tname, types = tsets[i % len(tsets)]
+        jobs.append({'ast': ast, 'text': text, 'label': text, 'tname': tname, 'types': types, 'tier': tier, 'src': ''})
+    others = [(cparse.show(a), a) for a in (extra_exprs() if tier == 'quick' else exprs) if has_idx(a)]
+    seen = set()
+    nhand = len(idxs) + sum(1 for a in extra_exprs() if has_idx(a))
+    if tier != 'quick':
+        others = [(cparse.show(a), a) for a in extra_exprs() if has_idx(a)] + others     # hand-written first (duplicates are skipped below)
+    for i, (text, ast) in enumerate(idxs + others):
+        if text in seen:
+            continue
+        seen.add(text)
+        tname, types = tsets[(i + 1) % len(tsets)]
+        for k, (cname, flags) in enumerate(IDX_CONFIGS):
+            if '-funsafe-string-indexing' in flags and static_oob(ast):
+                continue
+            if tier == 'quick' and (k == 2 or (k == 1 and i % 2 == 1)):
+                continue
+            if tier != 'quick' and i >= nhand and k != i % len(IDX_CONFIGS):
+                continue    # generated trees: one of the three configurations each, in rotation; hand-written ones: all three
+            jobs.append({'ast': ast, 'text': text, 'label': text, 'tname': f'{tname}+{cname}', 'types': types, 'tier': tier, 'src': '', 'flags': flags})
     orig = l3check.work
     l3check.work = work
     try:
